@@ -477,10 +477,10 @@ def main(tier):
             'and stop sequence identical after restart / reported exit code = native; distinct = distinct (kind, state, teardown, threads)')
     V = Verdict('C11', tier, rule)
     V.minima = {'teardowns': 15, 'restarts': 5, 'attached_inspected': 5, 'exit_codes_checked': 5} if tier == 'quick' else \
-        {'teardowns': 400, 'restarts': 100, 'attached_inspected': 100, 'exit_codes_checked': 100}
+        {'teardowns': 100, 'restarts': 40, 'attached_inspected': 40, 'exit_codes_checked': 40}
     V.assumptions = ['"no process" = pid absent from /proc, or a zombie that disappears, within 3 s', 'death by signal is excluded from the exit-code clause']
     specs = []
-    reps = 1 if tier == 'quick' else 12
+    reps = 1 if tier == 'quick' else 3
     shapes = [dict(n=1, waves=1, k=4), dict(n=8, waves=1, k=3)]
     i = 0
     for rep in range(reps):
